@@ -70,6 +70,13 @@ func datumTransform(source, dest *datum, x, y, z float64) (float64, float64, flo
 	if dest.datum_type == pjdGridShift {
 		dest.a = srsWGS84SemiMajor
 		dest.es = srsWGS84ESquared
+		// dest is shared with every other transformer built from the same
+		// spatial reference: undo the substitution on every return path,
+		// including the error returns below.
+		defer func() {
+			dest.a = dst_a
+			dest.es = dst_es
+		}()
 	}
 	// Do we need to go through geocentric coordinates?
 	if source.es != dest.es || source.a != dest.a || checkDatumParams(fallback) ||
